@@ -857,6 +857,11 @@ def _argsort(ex, st, args, kwargs, node):
     i2, j2 = c.fresh('pi'), c.fresh('pj')      # (fresh bound constants: z3 5.1 rejects a MultiPattern over constants already bound above)
     st.assume(z3.ForAll([i2, j2], z3.Implies(z3.And(0 <= i2, i2 < j2, j2 < n), a.elem((pf(i2),)) <= a.elem((pf(j2),))),
                         patterns=[z3.MultiPattern(pf(i2), pf(j2))]))
+    # for strictly increasing keys the sorting permutation is unique: the identity (lemma increasing_bijection_is_identity:
+    # sortedness + strictness make p increasing, an increasing map of {0..n-1} into itself is the identity)
+    i3, j3, k3 = c.fresh('pi'), c.fresh('pj'), c.fresh('pk')
+    strictly = z3.ForAll([i3, j3], z3.Implies(z3.And(0 <= i3, i3 < j3, j3 < n), a.elem((i3,)) < a.elem((j3,))))
+    st.assume(z3.Implies(strictly, z3.ForAll([k3], z3.Implies(z3.And(0 <= k3, k3 < n), pf(k3) == k3), patterns=[pf(k3)])))
     c.last_perm = (pf, qf)          # exposed to contracts as witnesses (the permutation and its inverse)
     res = Arr((a.shape[0],), lambda ix, pf=pf: pf(to_int(ix[0])), 'int', inv=lambda j, qf=qf: qf(to_int(j)))
     cache.append((a, res))
